@@ -145,7 +145,7 @@ h("cont.H_OptionalFault", map[string]int{"rounds": 3, "order_schemes": 1}, map[s
 			h("cont.H_Dispose", dsp(1, 3, 3, 0, 1, 0, 0), dsp(1, 3, 4, 1, 1, 0, 0), dspCov, 0, dspDesc),
 			h("cont.H_Dispose", with(dsp(0, 2, 4, 0, 1, 0, 0), "tree", 1, "closepanic", 1), with(dsp(0, 2, 4, 1, 2, 0, 0), "tree", 1, "closepanic", 1), dspCov, 10, dspDesc),
 			h("cont.H_Dispose", with(dsp(0, 2, 4, 0, 1, 0, 1), "tree", 1), with(dsp(0, 2, 4, 1, 2, 0, 1), "tree", 1), dspCov, 0, dspDesc),
-			h("cont.H_Faults", map[string]int{"order_schemes": 1}, map[string]int{"order_schemes": 2}, []string{"built", "build_failed", "resolution_failed"}, 0, "(C11 around failures) dependency chain 0->1->2 with symbolic lifetimes, one constructor failing once at a symbolic invocation during Build or a resolution, retries, then the scope and the provider are closed: within one scope an instance is closed before the non-singleton instances it received - also when a failed construction lies between their creation and the Close"),
+			h("cont.H_Faults", map[string]int{"order_schemes": 1, "leaf3": 1}, map[string]int{"order_schemes": 2, "leaf3": 1}, []string{"built", "build_failed", "resolution_failed"}, 0, "(C11 around failures) dependency chain 0->1->3 (all three disposable) with symbolic lifetimes, one constructor failing once at a symbolic invocation during Build or a resolution, retries, then the scope and the provider are closed: within one scope an instance is closed before the non-singleton instances it received - also when a failed construction lies between their creation and the Close"),
 		}},
 		propertySpec{ID: "C12", Harnesses: []harnessSpec{
 			h("cont.H_Dispose", dsp(1, 2, 3, 1, 2, 0, 1), dsp(1, 3, 3, 1, 2, 0, 1), dspCov, 20, dspDesc),
